@@ -18,21 +18,21 @@ Lemma same_meaning_of_bs extras G G' :
 Proof. intros H uprop w a emit e p sg r Vw Ve B Vs. rewrite <- !bs_iff_evaluates. now apply H. Qed.
 
 Theorem rotate_preserves extras G : pass_preserves extras 0 G.
-Proof. intros G' H. apply same_meaning_of_bs. intros. now apply (rotate_grammar G G'). Qed.
+Proof. intros ovf G' H. apply same_meaning_of_bs. intros. now apply (rotate_grammar G G'). Qed.
 
 Theorem unroll_preserves extras G : pass_preserves extras 2 G.
-Proof. intros G' H. apply same_meaning_of_bs. intros. now apply (unroll_grammar G G'). Qed.
+Proof. intros ovf G' H. apply same_meaning_of_bs. intros. now apply (unroll_grammar ovf G G'). Qed.
 
 Theorem concat_preserves extras G : literals_valid G -> pass_preserves extras 3 G.
-Proof. intros V G' H. apply same_meaning_of_bs. intros. now apply (concat_grammar G G'). Qed.
+Proof. intros V ovf G' H. apply same_meaning_of_bs. intros. now apply (concat_grammar G G'). Qed.
 
 Theorem factor_preserves extras G : pass_preserves extras 4 G.
-Proof. intros G' H. apply same_meaning_of_bs. intros. now apply (factor_grammar G G'). Qed.
+Proof. intros ovf G' H. apply same_meaning_of_bs. intros. now apply (factor_grammar G G'). Qed.
 
 (* the lister outside its class: the pass is the identity *)
 Theorem list_preserves_outside_class extras G : lister_applies G = false -> pass_preserves extras 5 G.
 Proof.
-  intros L G' H. unfold apply_pass in H. change (map_rules (fun r => list_rule r) G) with (map_rules list_rule G) in H.
+  intros L ovf G' H. unfold apply_pass in H. change (map_rules (fun r => list_rule r) G) with (map_rules list_rule G) in H.
   rewrite (lister_identity G L) in H. injection H as <-. apply same_meaning_refl.
 Qed.
 
@@ -59,7 +59,7 @@ Proof.
 Qed.
 
 Theorem skip_preserves extras G : valid_grammar G -> pass_preserves extras 1 G.
-Proof. intros (V & N & _) G' H. apply (skip_step_preserves extras G G G'); auto. now apply agrees_self. Qed.
+Proof. intros (V & N & _) ovf G' H. apply (skip_step_preserves extras G G G'); auto. now apply agrees_self. Qed.
 
 (* ---------- literal validity along the pipeline ---------- *)
 Lemma rot_seq_strs l : forall r, estrs (rot_seq l r) = estrs l ++ estrs r.
@@ -84,17 +84,17 @@ Proof.
   intros x y Vx [= <-]. now rewrite rotate_internal_strs.
 Qed.
 
-Lemma unroll_fn_strs extras e u : unroll_fn extras e = Some u -> Forall valid_utf8 (estrs e) -> Forall valid_utf8 (estrs u).
+Lemma unroll_fn_strs ovf extras e u : unroll_fn ovf extras e = Some u -> Forall valid_utf8 (estrs e) -> Forall valid_utf8 (estrs u).
 Proof.
   intros H V. destruct e; cbn [unroll_fn] in H;
     try (cbn [unroll_node] in H; injection H as <-; exact V);
-    try (destruct (fits _); [|discriminate]; eapply unroll_node_strs; eauto; reflexivity).
+    try (destruct (negb ovf || fits _); [|discriminate]; eapply unroll_node_strs; eauto; reflexivity).
   cbn [unroll_node] in H. destruct extras; injection H as <-; [exact V|]. cbn [estrs] in *. apply Forall_app; auto.
 Qed.
-Lemma unroll_gvalid extras G G' : literals_valid G -> map_rules (unroll_rule extras) G = Some G' -> literals_valid G'.
+Lemma unroll_gvalid ovf extras G G' : literals_valid G -> map_rules (unroll_rule ovf extras) G = Some G' -> literals_valid G'.
 Proof.
   apply gvalid_step. intros r r' H V. apply with_expr_inv in H. unfold unroll_expr in H.
-  eapply (map_bottom_up_lits valid_utf8 (unroll_fn extras)); [|exact V|exact H].
+  eapply (map_bottom_up_lits valid_utf8 (unroll_fn ovf extras)); [|exact V|exact H].
   intros x y Vx Hxy. eapply unroll_fn_strs; eauto.
 Qed.
 
@@ -128,10 +128,10 @@ Proof.
   - destruct (g r1); reflexivity.
 Qed.
 
-Lemma optimize_ast_stages extras G G6 : optimize_ast extras G = Some G6 ->
+Lemma optimize_ast_stages ovf extras G G6 : optimize_ast ovf extras G = Some G6 ->
   exists G1 G2 G3 G4 G5, map_rules rotate_rule G = Some G1 /\ map_rules (skip_rule G) G1 = Some G2 /\
-    map_rules (unroll_rule extras) G2 = Some G3 /\ map_rules concat_rule G3 = Some G4 /\ map_rules factor_rule G4 = Some G5 /\
-    map_rules list_rule G5 = Some G6 /\ front5 extras G = Some G5.
+    map_rules (unroll_rule ovf extras) G2 = Some G3 /\ map_rules concat_rule G3 = Some G4 /\ map_rules factor_rule G4 = Some G5 /\
+    map_rules list_rule G5 = Some G6 /\ front5 ovf extras G = Some G5.
 Proof.
   unfold optimize_ast, front5, ast_pipeline_rule, front5_rule. intros H.
   rewrite map_rules_compose in H. rewrite map_rules_compose.
@@ -139,7 +139,7 @@ Proof.
   rewrite map_rules_compose in H. rewrite map_rules_compose.
   destruct (map_rules (skip_rule G) G1) as [G2|] eqn:E2; cbn [obind] in *; [|discriminate].
   rewrite map_rules_compose in H. rewrite map_rules_compose.
-  destruct (map_rules (unroll_rule extras) G2) as [G3|] eqn:E3; cbn [obind] in *; [|discriminate].
+  destruct (map_rules (unroll_rule ovf extras) G2) as [G3|] eqn:E3; cbn [obind] in *; [|discriminate].
   rewrite map_rules_compose in H. rewrite map_rules_compose.
   destruct (map_rules concat_rule G3) as [G4|] eqn:E4; cbn [obind] in *; [|discriminate].
   rewrite map_rules_compose in H.
@@ -150,21 +150,21 @@ Proof.
 Qed.
 
 (* the composition, outside the lister class *)
-Theorem pipeline_preserves_outside_class extras G : valid_grammar G -> lister_class extras G = false -> pipeline_preserves extras G.
+Theorem pipeline_preserves_outside_class extras G : valid_grammar G -> (forall ovf, lister_class ovf extras G = false) -> pipeline_preserves extras G.
 Proof.
-  intros (V & N & _) L G6 H.
-  destruct (optimize_ast_stages _ _ _ H) as (G1 & G2 & G3 & G4 & G5 & H1 & H2 & H3 & H4 & H5 & H6 & F5).
+  intros (V & N & _) L0 ovf G6 H. pose proof (L0 ovf) as L.
+  destruct (optimize_ast_stages _ _ _ _ H) as (G1 & G2 & G3 & G4 & G5 & H1 & H2 & H3 & H4 & H5 & H6 & F5).
   unfold lister_class in L. rewrite F5 in L.
   assert (V1 := rotate_gvalid _ _ V H1).
   assert (A1 : agrees G G1) by (eapply agrees_after_rotate; eauto; now apply agrees_self).
   assert (V2 : literals_valid G2) by (eapply skip_gvalid; eauto; now apply gvalid_map).
-  assert (V3 := unroll_gvalid _ _ _ V2 H3).
-  eapply same_meaning_trans; [exact (rotate_preserves extras G G1 H1)|].
+  assert (V3 := unroll_gvalid _ _ _ _ V2 H3).
+  eapply same_meaning_trans; [exact (rotate_preserves extras G ovf G1 H1)|].
   eapply same_meaning_trans; [exact (skip_step_preserves extras G G1 G2 V V1 A1 H2)|].
-  eapply same_meaning_trans; [exact (unroll_preserves extras G2 G3 H3)|].
-  eapply same_meaning_trans; [exact (concat_preserves extras G3 V3 G4 H4)|].
-  eapply same_meaning_trans; [exact (factor_preserves extras G4 G5 H5)|].
-  exact (list_preserves_outside_class extras G5 L G6 H6).
+  eapply same_meaning_trans; [exact (unroll_preserves extras G2 ovf G3 H3)|].
+  eapply same_meaning_trans; [exact (concat_preserves extras G3 V3 ovf G4 H4)|].
+  eapply same_meaning_trans; [exact (factor_preserves extras G4 ovf G5 H5)|].
+  exact (list_preserves_outside_class extras G5 L ovf G6 H6).
 Qed.
 
 (* ---------- the conversion: names are kept, no RestoreOnErr yet ---------- *)
